@@ -278,6 +278,17 @@ let split_cfg (toks : string list) : string list * conf =
   let auto = (match r with [a] -> a = 1 | _ -> failwith "bad CFG") in
   (st, { c_in = List.map nat_of_int cin; c_out = List.map nat_of_int cout; c_auto = auto })
 
+(* do all quorums of configurations a and b intersect?  (ids 1..n; brute force over the 2^n
+   subsets p: a quorum of a inside p and a quorum of b inside the complement of p would be disjoint) *)
+let confs_intersect (n : int) (a : nat list * nat list) (b : nat list * nat list) : bool =
+  let ok = ref true in
+  for mask = 0 to (1 lsl n) - 1 do
+    let p (x : nat) = let i = int_of_nat x in i >= 1 && i <= n && (mask lsr (i - 1)) land 1 = 1 in
+    let np (x : nat) = not (p x) in
+    if joint_satb (fst a) (snd a) p && joint_satb (fst b) (snd b) np then ok := false
+  done;
+  !ok
+
 let normalize_cc (n : int) (x : cxstate) : cxstate =
   let arr = Array.init (n + 1) (fun i -> x.cx_nodes (nat_of_int i)) in
   { cx_nodes = (fun y -> let i = int_of_nat y in if i <= n then arr.(i) else (init_node, O)); cx_msgs = x.cx_msgs }
@@ -300,6 +311,9 @@ let run_tracecc infile outfile =
     let fail = ref None in
     let idx = ref 0 and confs = ref 0 and elections = ref 0 in
     let prevrole = Array.make (n + 1) Follower and prevcfg = Array.make (n + 1) boot in
+    (* every configuration obtained from a prefix of any log seen in this schedule *)
+    let family : (nat list * nat list) list ref = ref [(boot.c_in, boot.c_out)] in
+    let add_cfg (c : conf) = let k = (c.c_in, c.c_out) in if not (List.mem k !family) then family := k :: !family in
     (try
        List.iter (fun g ->
            incr idx;
@@ -336,6 +350,7 @@ let run_tracecc infile outfile =
               prevrole.(g.g_id) <- obs.p_role;
               if prevcfg.(g.g_id) <> obs_cfg then incr confs;
               prevcfg.(g.g_id) <- obs_cfg;
+              (let rec go c = function [] -> () | e :: t -> let c' = cfg_of c [e] in add_cfg c'; go c' t in go boot obs.p_log);
               x := normalize_cc n x'
             | CVBadEvent -> fail := Some (Printf.sprintf "event=%d reason=delivered-message-never-sent | %s" !idx (String.concat " " g.g_args)); raise Exit
             | CVMissingReply m -> fail := Some (Printf.sprintf "event=%d reason=missing-reply | model replies: %s | %s %d %s" !idx (msg_str m) g.g_kind g.g_id (String.concat " " g.g_args)); raise Exit
@@ -344,7 +359,11 @@ let run_tracecc infile outfile =
      with Exit -> ());
     (match !fail with
      | Some f -> Printf.fprintf oc "S %s FAIL %s\n" !cur_k f
-     | None -> Printf.fprintf oc "S %s OK events=%d nodes=%d elections=%d confswitches=%d\n" !cur_k !idx n !elections !confs) in
+     | None ->
+       let fam = !family in
+       let inside = List.for_all (fun a -> List.for_all (fun b -> confs_intersect n a b) fam) fam in
+       Printf.fprintf oc "S %s OK events=%d nodes=%d elections=%d confswitches=%d configs=%d envelope=%d\n" !cur_k !idx n !elections !confs
+         (List.length fam) (if inside then 1 else 0)) in
   List.iter (fun l ->
       match split_ws l with
       | ["SCHEDULE"; k] -> cur_k := k; groups := []; cur := None
